@@ -39,6 +39,7 @@ def _conds(tier):
         c("12", "-1,0", clock="float", special=1)
         c("01", "-1,0", clock="duration", vmax=2)
         c("10", "-1,0", clock="duration", vmax=2)
+        c("01", "-1,-1", clock="duration", vmax=1, special=1)
         c("01", "-1,0", fn="h_run2")
     else:
         for kinds, parents in _skeletons(3):
@@ -51,6 +52,7 @@ def _conds(tier):
         for kinds, parents in _skeletons(2):
             c(kinds, parents, clock="float", special=1, timeout=900)
             c(kinds, parents, clock="duration", vmax=3, timeout=900)
+            c(kinds, parents, clock="duration", vmax=1, special=1, timeout=900)
             c(kinds, parents, fn="h_run2", timeout=900)
         for kinds, parents in (("012", "-1,-1,0"), ("110", "-1,0,1"), ("201", "-1,0,0"), ("011", "-1,0,0")):
             for cb in (-1, 0, 1, 2):
@@ -73,7 +75,7 @@ def run(ctx):
                    "K=3 on the int clock (quick: 4 skeletons; thorough: all 162), K=2 on float and Duration clocks",
         "symbolic": "times/delays -1..4 (negative delay / time before the clock = illegal request), priorities "
                     "{1,5,10}, one cancellation (who, target) incl. already executed / refused targets, replication "
-                    "length 1..5; float clock: halves, plus NaN and +inf request times; Duration: 0.5 s grid",
+                    "length 1..5; float clock: halves, plus NaN and +inf request times; Duration: 0.5 s grid, plus NaN and +inf Durations",
     }
     ctx.assumptions = [
         "inline worker generated from the live AST of SimulatorWorkerThread.run (sequential schedule: the worker runs to quiescence when woken)",
